@@ -38,6 +38,12 @@ TYPES: dict[str, dict[str, tuple[str, str]]] = {
         'P': ('a', 'a'), 'k2': ('a', 'a'), 'IL': ('L', 'L'), 'kL': ('L', 'L'),
         'Dr': ('T', 'T'), 'Drt': ('T', 'T'), 'RwT': ('T', 'S'), 'ClT': ('S', 'T'),
     },
+    # move-axis operators in every spelling on a pytree whose leaves have different ranks (all dims 2, so every operator
+    # maps the space to itself and any two compose); the inverse-pair rule must not be fooled by mixed-sign spellings
+    'AXT': {
+        'Ma': ('t', 't'), 'Mb': ('t', 't'), 'Mc': ('t', 't'), 'Md': ('t', 't'), 'Me': ('t', 't'), 'Mf': ('t', 't'), 'Mg': ('t', 't'),
+        'Mh': ('t', 't'), 'Dt': ('t', 't'), 'kt': ('t', 't'),
+    },
     # user-extension domain: toy operators and toy AbstractBinaryRules defined in the harness; the only way to reach the
     # driver's "a rule produced a scalar => relocate it and restart" branch, which no library rule exercises
     'EXT': {
@@ -46,7 +52,7 @@ TYPES: dict[str, dict[str, tuple[str, str]]] = {
     },
 }
 
-EXACT = {'POL': False, 'IDX': True, 'INV': False, 'BLK': False, 'EXT': True}
+EXACT = {'POL': False, 'IDX': True, 'INV': False, 'BLK': False, 'EXT': True, 'AXT': True}
 
 
 def typed_chains(domain: str, max_len: int, min_len: int = 1):
@@ -171,6 +177,14 @@ def build(domain: str) -> dict:
             'DgX': BlockDiagonalOperator([Dg]), 'ClN': BlockColumnOperator([[Q, P]]),
             'P': P, 'k2': hom(2.0, a), 'IL': IdentityOperator(L), 'kL': hom(-2.0, L),
             'Dr': Dr, 'Drt': Dr.T, 'RwT': BlockRowOperator([R, R.T]), 'ClT': BlockColumnOperator([R.T, R]),
+        }
+    elif domain == 'AXT':
+        t = {'a': sds(2, 2), 'b': sds(2, 2, 2)}
+        spaces = {'t': t}
+        mk = lambda s_, d_: MoveAxisOperator(s_, d_, in_structure=t)  # noqa: E731
+        atoms = {
+            'Ma': mk(0, 1), 'Mb': mk(1, 0), 'Mc': mk(0, -1), 'Md': mk(-1, 0), 'Me': mk(-2, -1), 'Mf': mk(-1, -2), 'Mg': mk(1, -1), 'Mh': mk(-1, 1),
+            'Dt': DiagonalOperator(arr([2.0, 3.0]), axis_destination=0, in_structure=t), 'kt': hom(-2.0, t),
         }
     elif domain == 'EXT':
         from furax._base.core import AbstractLinearOperator, square
